@@ -93,6 +93,8 @@ def sig_for(backend, sc, events, k):
         cls += ",queue-prefilled"
     if sc["nest"]["api"] != "none":
         cls += ",nested"
+    if sc.get("pre", "none") != "none":
+        cls += ",after-a-%s-loop" % {"throw": "failed", "cancel": "cancelled"}[sc["pre"]]
     what = ev.get("ev")
     if what == "Abort":
         w = ev.get("why", "")
@@ -139,9 +141,13 @@ def run(chk, replay=None):
     if os.environ.get("VERIF_C01_PLANS"):      # development aid: VERIF_C01_PLANS="Internal:4,TBB:2"
         plans = [(x.split(":")[0], int(x.split(":")[1]), int((x.split(":") + ["0"])[2])) for x in os.environ["VERIF_C01_PLANS"].split(",")]
     total_events = 0
+    cut_recs = []
     for backend, threads, perturb in plans:
         exe = build.build("drv_par_for", backend=backend)
         mine = [s for s in scen if not (s.get("prefill") and backend == "Debug")]
+        # a body that throws ends the process on the OpenMP and Internal back ends (exception leaving a worker thread): the
+        # "earlier loop failed" histories run where an exception can leave a loop; cancellation is a TBB notion
+        mine = [s for s in mine if s.get("pre", "none") == "none" or (s["pre"] == "throw" and backend in ("TBB", "Debug")) or (s["pre"] == "cancel" and backend == "TBB")]
         t0 = time.time()
         res = run_driver(exe, mine, threads, "c01-%s-%d" % (backend, threads), perturb=perturb)
         execs = []
@@ -165,11 +171,20 @@ def run(chk, replay=None):
                 backend, threads, json.dumps(s, sort_keys=True), rj["line"], json.dumps(evs[rj["line"]]))
             chk.violation(sig, what, {"kind": "par_for", "backend": backend, "threads": threads, "scenario": s,
                                       "events_tail": evs[max(0, rj["line"] - 20):rj["line"] + 1], "rejected_at": rj["line"]})
+        if backend == "Internal" and threads > 1:
+            # mechanism binding (model drift only): the ranges the real scheduler handed to ExecuteRange for a plain top-level
+            # parallel_for on an idle scheduler must be unions of partitions of the EnkiTS model's arithmetic (EnkiCuts.tla)
+            for s, evs in zip(mine, execs):
+                if s["api"] == "for" and s["nest"]["api"] == "none" and not s.get("prefill") and s["n"] > 0:
+                    runs = [[e["b"], e["e"]] for e in evs if e.get("ev") == "ExecBegin" and e.get("c") == 1]
+                    if runs:
+                        cut_recs.append({"T": threads, "n": s["n"], "runs": runs})
         if backend == "TBB" and threads == 4:
             nested = [i for i, s in enumerate(mine) if s["nest"]["api"] != "none" and s["n"] == 2]
             if nested:
                 chk.add_sample({"kind": "recorded-execution", "backend": backend, "scenario": mine[nested[0]], "events": execs[nested[0]][:14]})
     chk.cov["events_validated"] = total_events
+    judge_cuts(chk, cut_recs)
     # 2b. stress: many rounds of a small loop on an oversubscribed Internal backend (16 tasking threads on 4 CPUs), so that
     # scheduler threads are preempted at arbitrary instructions; only the first rounds and rounds whose read-back is not
     # "every cell exactly once" are recorded (and then validated by TLC); a process that dies is an Abort line
@@ -203,6 +218,34 @@ def run(chk, replay=None):
     c01_mech.run_pipe_conformance(chk, quick)
     chk.cov["rule"] = ("one execution per (scenario, backend, thread count); scenarios are all elements of the set Scenarios of ParallelForGen.tla "
                        "(thinned in the quick tier for n >= 1000); distinct = distinct scenario records per plan; non-trivial = task count > 0")
+
+
+def judge_cuts(chk, recs):
+    """code -> mechanism model: recorded ExecuteRange ranges against the partition arithmetic of EnkiTS (never a VIOLATION)."""
+    import re
+    if not recs:
+        return
+    d = os.path.join(WORK, "run", "c01-cuts")
+    os.makedirs(d, exist_ok=True)
+    path = os.path.join(d, "cuts-%d.ndjson" % os.getpid())
+    with open(path, "w") as f:
+        for r in recs:
+            f.write(json.dumps(r) + "\n")
+    r = tla.run_tlc(os.path.join(SPEC, "EnkiCutsValidate.tla"), os.path.join(SPEC, "EnkiCutsValidate.cfg"), workers=1, timeout=600,
+                    env={"RECS": path}, tag="c01-cuts")
+    os.remove(path)
+    m = re.search(r'"CUTS-JUDGED", (\d+), "RUNS", (\d+)', r.out)
+    if r.error or not r.ok or not m or int(m.group(1)) != len(recs):
+        raise InfraError("EnkiCutsValidate did not judge the %d records: %s" % (len(recs), (r.error or r.out)[-1500:]))
+    rej = re.findall(r'"CUTS-REJECTED", (\d+), (\d+), (\d+), (\{[^}]*\})', r.out)
+    chk.cov["scheduler_partitions"] = {"records": len(recs), "ranges_judged": int(m.group(2)), "records_rejected": len(rej)}
+    chk.log("Internal scheduler partitions: %d ranges of %d top-level loops judged against EnkiCuts (the EnkiTS model's partition arithmetic), "
+            "%d loops rejected" % (int(m.group(2)), len(recs), len(rej)))
+    for i, T, n, bad in rej[:5]:
+        rec = recs[int(i) - 1]
+        chk.note("model-drift: Internal backend, %s threads, parallel_for(%s): ranges %s handed to ExecuteRange do not start / end at cut points of the "
+                 "EnkiTS model (EnkiCuts.tla): the mechanism model's partition arithmetic no longer describes the code; the design-level results "
+                 "NoOob / AtMostOnce / JoinOk of EnkiTS.tla do not transfer" % (T, n, [rec["runs"][int(k) - 1] for k in re.findall(r"\d+", bad)][:6]))
 
 
 def do_replay(chk, path):
